@@ -34,8 +34,13 @@ pub struct SearchStats {
     pub machinery: Vec<String>,
     /// (history as event indices, signature, detail, trace)
     pub violations: Vec<(Vec<usize>, String, String, Vec<String>)>,
+    /// number of failing histories per signature (all of them, not only the kept ones)
+    pub violation_counts: std::collections::BTreeMap<String, u64>,
     pub sample_traces: Vec<Vec<String>>,
 }
+
+/// failing histories kept per signature
+pub const KEEP_PER_SIGNATURE: usize = 12;
 
 /// next history in lexicographic order after skipping the whole subtree below `h[..=k]`
 fn bump(h: &mut [usize], k: usize, a: usize) -> bool {
@@ -120,7 +125,18 @@ where
                             }
                         }
                         for (sig, detail) in &out.fails {
-                            st.violations.push((h.clone(), sig.clone(), detail.clone(), out.trace.clone()));
+                            // every failing history is counted, but only a few per signature are kept (the
+                            // ones that fail earliest): millions of traces of one known finding cost tens of GiB
+                            *st.violation_counts.entry(sig.clone()).or_insert(0) += 1;
+                            let kept: Vec<usize> = st.violations.iter().enumerate().filter(|(_, v)| &v.1 == sig).map(|(i, _)| i).collect();
+                            let flen = |t: &Vec<String>| t.len();
+                            if kept.len() < KEEP_PER_SIGNATURE {
+                                st.violations.push((h.clone(), sig.clone(), detail.clone(), out.trace.clone()));
+                            } else if let Some(worst) = kept.iter().copied().max_by_key(|i| flen(&st.violations[*i].3)) {
+                                if flen(&out.trace) < flen(&st.violations[worst].3) {
+                                    st.violations[worst] = (h.clone(), sig.clone(), detail.clone(), out.trace.clone());
+                                }
+                            }
                         }
                         if st.sample_traces.len() < 3 && out.executed == depth {
                             st.sample_traces.push(out.trace.clone());
